@@ -291,6 +291,15 @@ func (c *Cache[K, V]) VerifPolicyRand(f func() uint32) {
 	}
 }
 
+// VerifSetSampleSize shrinks the sketch's sample period (normally ten times the capacity, at least 10), so that
+// the hill climber's adjustments come within reach of a bounded exploration. Small-scope reduction only: the
+// climber code that runs is the real one. Must be called with no operation in flight.
+func (c *Cache[K, V]) VerifSetSampleSize(n uint64) {
+	if c.cache.withEviction && !c.cache.evictionPolicy.sketch.isNotInitialized() {
+		c.cache.evictionPolicy.sketch.sampleSize = n
+	}
+}
+
 // VerifMaximum reads the policy maximum without running maintenance (GetMaximum may run it).
 func (c *Cache[K, V]) VerifMaximum() uint64 {
 	if !c.cache.withEviction {
